@@ -57,7 +57,7 @@ def run(ctx, pool):
     if missing:
         failures.append("table rows without a validated execution: %s" % missing[:5])
     # every step of process runs = standalone calculation at the reported state
-    tw2, stats = pc.record_processes(ctx, ctx.n(300, 8000), ctx.n(24, 600), {"with_std": True})
+    tw2, stats = pc.record_processes(ctx, ctx.n(300, 8000), ctx.n(24, 600), {"with_std": True, "slow_p": 0.15})
     res2 = core.validate_traces(None, ctx, tw2, pool, "Trace_Process.tla", "Trace_Process_C08.cfg", tag="proc")
     # "the selected activity model is honoured": the standalone answer (with which all other entry points are compared above) obeys the
     # solution-diffusion law with the permeate side evaluated by the SELECTED model at the composition of the returned fluxes
